@@ -33,15 +33,25 @@
     (__CPROVER_rw_ok((m), sizeof(spifmem_memrec_t)) && (m)->cnt <= MEMREC_CAP && vg_n3 <= MEMREC_CAP && \
      (((m)->cnt == 0 && (m)->ptrs == NULL) || \
       __CPROVER_is_fresh((m)->ptrs, MEMREC_RSZ * ((m)->cnt ? (m)->cnt : vg_n3))))
-#define MEMREC_HARNESS_BUILD(m) do { } while (0)
+/* bounded units fix the record count to a constant */
+# ifdef MEMREC_HARNESS_CNT
+#  define MEMREC_HARNESS_BUILD(m) do { (m)->cnt = MEMREC_HARNESS_CNT; } while (0)
+# else
+#  define MEMREC_HARNESS_BUILD(m) do { } while (0)
+# endif
 #else
-/* experiment: table built by the harness as a TYPED array object */
+/* table built by the harness as a TYPED array object (units with the memmove of memrec_rem_var);
+ * MEMREC_HARNESS_CNT: the record count, arbitrary unless a bounded unit fixes it to a constant */
+#ifndef MEMREC_HARNESS_CNT
+# define MEMREC_HARNESS_CNT nondet_size_t()
+#endif
 #define MEMREC_PRE(m) (__CPROVER_rw_ok((m), sizeof(spifmem_memrec_t)) && MEMREC_POST(m))
 #define MEMREC_HARNESS_BUILD(m) do { \
-    (m)->cnt = nondet_size_t(); __CPROVER_assume((m)->cnt <= MEMREC_CAP); \
+    (m)->cnt = MEMREC_HARNESS_CNT; __CPROVER_assume((m)->cnt <= MEMREC_CAP); \
     if ((m)->cnt == 0 && nondet_bool()) (m)->ptrs = NULL; \
     else { size_t vg_cap_ = (m)->cnt; if (vg_cap_ == 0) { vg_cap_ = nondet_size_t(); __CPROVER_assume(vg_cap_ <= MEMREC_CAP); } \
-           (m)->ptrs = __CPROVER_allocate(sizeof(spifmem_ptr_t) * vg_cap_, 0); } } while (0)
+           (m)->ptrs = __CPROVER_allocate(sizeof(spifmem_ptr_t) * vg_cap_, 0); } \
+    vg_mh_tab = (m)->ptrs; } while (0)
 #endif
 #define MEMREC_POST(m) \
     ((m)->cnt <= MEMREC_CAP && \
@@ -100,25 +110,44 @@ __CPROVER_ensures(__CPROVER_return_value == TRUE || __CPROVER_return_value == FA
  * parts together are the whole postcondition.  Without MEM_PART (callers that use the contract at a
  * replaced call site) all clauses are present.  Reason: with every clause in one query the SAT and
  * SMT back ends need > 300 s / > 8 GB, the parts take seconds to a minute. */
-#if !defined(MEM_PART) || MEM_PART == 1
-# define MEM_ENS_SHAPE(e)   __CPROVER_ensures(e)
-#else
-# define MEM_ENS_SHAPE(e)
+#ifndef MEM_PART
+# define MEM_PART 0
 #endif
-#if !defined(MEM_PART) || MEM_PART == 2
-# define MEM_ENS_REC(e)     __CPROVER_ensures(e)
-# define MEM_REQ_REC(e)     __CPROVER_requires(e)
-#else
-# define MEM_ENS_REC(e)
-# define MEM_REQ_REC(e)
-#endif
-#if !defined(MEM_PART) || MEM_PART == 3
-# define MEM_ENS_NODUP(e)   __CPROVER_ensures(e)
-# define MEM_REQ_NODUP(e)   __CPROVER_requires(e)
-#else
-# define MEM_ENS_NODUP(e)
-# define MEM_REQ_NODUP(e)
-#endif
+/* clause of group g (1 shape, 2 records, 3 no-duplicates) of the function whose part selector is fp
+ * (0 = whole contract).  Group 1 (shape) is part of every part: callers need it in every part. */
+#define MEM_E(fp, g, e)    MEM_E_(fp, g, e)
+#define MEM_E_(fp, g, e)   MEM_E_##fp##_##g(e)
+#define MEM_R(fp, g, e)    MEM_R_(fp, g, e)
+#define MEM_R_(fp, g, e)   MEM_R_##fp##_##g(e)
+#define MEM_E_0_1(e) __CPROVER_ensures(e)
+#define MEM_E_0_2(e) __CPROVER_ensures(e)
+#define MEM_E_0_3(e) __CPROVER_ensures(e)
+#define MEM_E_1_1(e) __CPROVER_ensures(e)
+#define MEM_E_1_2(e)
+#define MEM_E_1_3(e)
+#define MEM_E_2_1(e) __CPROVER_ensures(e)
+#define MEM_E_2_2(e) __CPROVER_ensures(e)
+#define MEM_E_2_3(e)
+#define MEM_E_3_1(e) __CPROVER_ensures(e)
+#define MEM_E_3_2(e)
+#define MEM_E_3_3(e) __CPROVER_ensures(e)
+#define MEM_R_0_2(e) __CPROVER_requires(e)
+#define MEM_R_0_3(e) __CPROVER_requires(e)
+#define MEM_R_1_2(e)
+#define MEM_R_1_3(e)
+#define MEM_R_2_2(e) __CPROVER_requires(e)
+#define MEM_R_2_3(e)
+#define MEM_R_3_2(e)
+#define MEM_R_3_3(e) __CPROVER_requires(e)
+/* the part selector applies to every contract of the translation unit: a caller's part-k unit uses
+ * the callee's part-k contract, which is exactly what the callee's part-k unit proved */
+#define P_ADD MEM_PART
+#define P_REM MEM_PART
+#define P_CHG MEM_PART
+#define P_MALLOC MEM_PART
+#define P_CALLOC MEM_PART
+#define P_FREE MEM_PART
+#define P_REALLOC MEM_PART
 
 /* find: NULL iff the pointer is not recorded (seen at vg_r); otherwise the FIRST record with
  * that pointer, whose index is left in vg_fidx.
@@ -142,17 +171,19 @@ __CPROVER_ensures(__CPROVER_return_value == NULL ||
 void memrec_add_var(spifmem_memrec_t *memrec, const char *filename, unsigned long line, void *ptr, size_t size)
 __CPROVER_requires(MEMREC_PRE(memrec) && memrec->cnt < MEMREC_CAP)
 __CPROVER_requires(MEM_FNAME_PRE(filename) && line <= 0xffffffffUL)
-MEM_REQ_REC(MEMREC_LOGICAL(memrec))
-MEM_REQ_NODUP(MEMREC_NODUP_AT(memrec, vg_r, vg_r2) && MEMREC_ABSENT_AT(memrec, ptr, vg_r) && MEMREC_ABSENT_AT(memrec, ptr, vg_r2))
+MEM_R(P_ADD, 2, MEMREC_LOGICAL(memrec))
+MEM_R(P_ADD, 3, MEMREC_NODUP_AT(memrec, vg_r, vg_r2) && MEMREC_ABSENT_AT(memrec, ptr, vg_r) && MEMREC_ABSENT_AT(memrec, ptr, vg_r2))
 __CPROVER_assigns(memrec->cnt, memrec->ptrs, vg_exit)
 __CPROVER_assigns(memrec->ptrs != NULL: __CPROVER_object_whole(memrec->ptrs))
 __CPROVER_frees(memrec->ptrs)
-MEM_ENS_SHAPE(MEMREC_POST(memrec) && memrec->cnt == __CPROVER_old(memrec->cnt) + 1)
-MEM_ENS_REC(!(vg_r < __CPROVER_old(memrec->cnt)) || MEMREC_REC_EQ(memrec->ptrs[vg_r], vg_o_r))
-MEM_ENS_REC(vg_r != __CPROVER_old(memrec->cnt) ||
+/* the table was re-allocated: a fresh block (what a caller using this contract needs to know) */
+__CPROVER_ensures(memrec->cnt == __CPROVER_old(memrec->cnt) + 1 && __CPROVER_is_fresh(memrec->ptrs, MEMREC_RSZ * memrec->cnt))
+MEM_E(P_ADD, 1, MEMREC_POST(memrec))
+MEM_E(P_ADD, 2, !(vg_r < __CPROVER_old(memrec->cnt)) || MEMREC_REC_EQ(memrec->ptrs[vg_r], vg_o_r))
+MEM_E(P_ADD, 2, vg_r != __CPROVER_old(memrec->cnt) ||
             (memrec->ptrs[vg_r].ptr == ptr && memrec->ptrs[vg_r].size == size &&
              memrec->ptrs[vg_r].line == (spif_uint32_t) line && MEMREC_FILE_IS(memrec, vg_r, filename)))
-MEM_ENS_NODUP(MEMREC_NODUP_AT(memrec, vg_r, vg_r2))
+MEM_E(P_ADD, 3, MEMREC_NODUP_AT(memrec, vg_r, vg_r2))
 ;
 
 /* remove: either the pointer is not recorded (seen at vg_r) and nothing changes, or the first
@@ -161,16 +192,16 @@ MEM_ENS_NODUP(MEMREC_NODUP_AT(memrec, vg_r, vg_r2))
  * the instantiation vg_r2 == vg_fidx (vg_r2 is arbitrary). */
 void memrec_rem_var(spifmem_memrec_t *memrec, const char *var, const char *filename, unsigned long line, const void *ptr)
 __CPROVER_requires(MEMREC_PRE(memrec))
-MEM_REQ_REC(MEMREC_LOGICAL(memrec))
-MEM_REQ_NODUP(MEMREC_NODUP_AT(memrec, vg_r, vg_r2) && MEMREC_NODUP_AT(memrec, vg_r + 1, vg_r2) &&
+MEM_R(P_REM, 2, MEMREC_LOGICAL(memrec))
+MEM_R(P_REM, 3, MEMREC_NODUP_AT(memrec, vg_r, vg_r2) && MEMREC_NODUP_AT(memrec, vg_r + 1, vg_r2) &&
               MEMREC_NODUP_AT(memrec, vg_r, vg_r2 + 1) && MEMREC_NODUP_AT(memrec, vg_r + 1, vg_r2 + 1))
 __CPROVER_assigns(memrec->cnt, memrec->ptrs, vg_fidx)
 __CPROVER_assigns(memrec->ptrs != NULL: __CPROVER_object_whole(memrec->ptrs))
 __CPROVER_frees(memrec->ptrs)
-MEM_ENS_SHAPE(MEMREC_POST(memrec))
-MEM_ENS_SHAPE((memrec->cnt == __CPROVER_old(memrec->cnt) && memrec->ptrs == __CPROVER_old(memrec->ptrs)) ||
+MEM_E(P_REM, 1, MEMREC_POST(memrec))
+MEM_E(P_REM, 1, (memrec->cnt == __CPROVER_old(memrec->cnt) && memrec->ptrs == __CPROVER_old(memrec->ptrs)) ||
               (ptr != NULL && memrec->cnt + 1 == __CPROVER_old(memrec->cnt) && vg_fidx <= memrec->cnt))
-MEM_ENS_REC(
+MEM_E(P_REM, 2, 
     /* unknown pointer (seen at vg_r): table unchanged */
     (memrec->cnt == __CPROVER_old(memrec->cnt) &&
      (ptr == NULL || !(vg_r < memrec->cnt) || vg_o_r.ptr != ptr) &&
@@ -181,9 +212,9 @@ MEM_ENS_REC(
      (vg_fidx != vg_r2 || vg_o_r2.ptr == ptr) &&
      (!(vg_r < memrec->cnt) ||
       (vg_r < vg_fidx ? MEMREC_REC_EQ(memrec->ptrs[vg_r], vg_o_r) : MEMREC_REC_EQ(memrec->ptrs[vg_r], vg_o_r1)))))
-MEM_ENS_NODUP(MEMREC_NODUP_AT(memrec, vg_r, vg_r2))
+MEM_E(P_REM, 3, MEMREC_NODUP_AT(memrec, vg_r, vg_r2))
 /* that record is gone: after a removal no record holds ptr (instantiation vg_r2 == vg_fidx) */
-MEM_ENS_NODUP(memrec->cnt == __CPROVER_old(memrec->cnt) || vg_fidx != vg_r2 || MEMREC_ABSENT_AT(memrec, ptr, vg_r))
+MEM_E(P_REM, 3, memrec->cnt == __CPROVER_old(memrec->cnt) || vg_fidx != vg_r2 || MEMREC_ABSENT_AT(memrec, ptr, vg_r))
 ;
 
 /* change: unknown pointer => unchanged; otherwise the first record holding oldp (index vg_fidx)
@@ -191,15 +222,15 @@ MEM_ENS_NODUP(memrec->cnt == __CPROVER_old(memrec->cnt) || vg_fidx != vg_r2 || M
 void memrec_chg_var(spifmem_memrec_t *memrec, const char *var, const char *filename, unsigned long line, const void *oldp, void *newp, size_t size)
 __CPROVER_requires(MEMREC_PRE(memrec))
 __CPROVER_requires(MEM_FNAME_PRE(filename) && line <= 0xffffffffUL)
-MEM_REQ_REC(MEMREC_LOGICAL(memrec))
-MEM_REQ_NODUP(MEMREC_NODUP_AT(memrec, vg_r, vg_r2))
+MEM_R(P_CHG, 2, MEMREC_LOGICAL(memrec))
+MEM_R(P_CHG, 3, MEMREC_NODUP_AT(memrec, vg_r, vg_r2))
 /* the new address is not the address of another record */
-MEM_REQ_NODUP(!(vg_r < memrec->cnt) || memrec->ptrs[vg_r].ptr != newp || memrec->ptrs[vg_r].ptr == oldp)
-MEM_REQ_NODUP(!(vg_r2 < memrec->cnt) || memrec->ptrs[vg_r2].ptr != newp || memrec->ptrs[vg_r2].ptr == oldp)
+MEM_R(P_CHG, 3, !(vg_r < memrec->cnt) || memrec->ptrs[vg_r].ptr != newp || memrec->ptrs[vg_r].ptr == oldp)
+MEM_R(P_CHG, 3, !(vg_r2 < memrec->cnt) || memrec->ptrs[vg_r2].ptr != newp || memrec->ptrs[vg_r2].ptr == oldp)
 __CPROVER_assigns(vg_fidx, vg_exit)
 __CPROVER_assigns(memrec->ptrs != NULL: __CPROVER_object_whole(memrec->ptrs))
-MEM_ENS_SHAPE(MEMREC_POST(memrec) && memrec->cnt == __CPROVER_old(memrec->cnt) && memrec->ptrs == __CPROVER_old(memrec->ptrs))
-MEM_ENS_REC(
+MEM_E(P_CHG, 1, MEMREC_POST(memrec) && memrec->cnt == __CPROVER_old(memrec->cnt) && memrec->ptrs == __CPROVER_old(memrec->ptrs))
+MEM_E(P_CHG, 2, 
     ((oldp == NULL || !(vg_r < memrec->cnt) || vg_o_r.ptr != oldp) &&
      (!(vg_r < memrec->cnt) || MEMREC_REC_EQ(memrec->ptrs[vg_r], vg_o_r)))
     ||
@@ -209,8 +240,128 @@ MEM_ENS_REC(
      (vg_r != vg_fidx ||
       (memrec->ptrs[vg_r].ptr == newp && memrec->ptrs[vg_r].size == size &&
        memrec->ptrs[vg_r].line == (spif_uint32_t) line && MEMREC_FILE_IS(memrec, vg_r, filename)))))
-MEM_ENS_NODUP(MEMREC_NODUP_AT(memrec, vg_r, vg_r2))
+MEM_E(P_CHG, 3, MEMREC_NODUP_AT(memrec, vg_r, vg_r2))
 ;
+
+/* add/rem: when the table was re-allocated the new table is a fresh block (what callers that use
+ * these contracts at a replaced call site need to know about memrec->ptrs) */
+
+/* ---- allocation wrappers ------------------------------------------------------------------------
+ * Two behaviours per wrapper, selected by the unit: U_LEVEL_ON (runtime level >= DEBUG_MEM: the table
+ * mirrors the allocator) and U_LEVEL_OFF (below: the table is not in the frame at all, i.e. untouched).
+ * A recorded block is LIVE: record k's ptr is the start of a live heap block whose size is the
+ * recorded size ("each with the block's current address, its most recently requested size"). */
+#define MEM_TAB             (&malloc_rec)
+#define MEM_LIVE_PRE_AT(k)  (!((k) < malloc_rec.cnt) || \
+                             (malloc_rec.ptrs[(k)].size <= (size_t) VCAP && \
+                              __CPROVER_is_fresh(malloc_rec.ptrs[(k)].ptr, malloc_rec.ptrs[(k)].size)))
+#if defined(U_LEVEL_ON)
+# define MEM_LEVEL_REQ   (libast_debug_level >= DEBUG_MEM)
+#elif defined(U_LEVEL_OFF)
+# define MEM_LEVEL_REQ   (libast_debug_level < DEBUG_MEM)
+#endif
+
+#ifdef U_LEVEL_OFF
+/* below DEBUG_MEM: plain allocator semantics, empty frame (malloc_rec and its table untouched) */
+void *spifmem_malloc(const char *filename, unsigned long line, size_t size)
+__CPROVER_requires(MEM_LEVEL_REQ && size <= (size_t) VCAP)
+__CPROVER_assigns()
+__CPROVER_ensures(__CPROVER_is_fresh(__CPROVER_return_value, size))
+;
+void *spifmem_calloc(const char *filename, unsigned long line, size_t count, size_t size)
+__CPROVER_requires(MEM_LEVEL_REQ && count <= 0xffffUL && size <= 0xffffUL)
+__CPROVER_assigns()
+__CPROVER_ensures(__CPROVER_is_fresh(__CPROVER_return_value, count * size))
+__CPROVER_ensures(!(vg_k2 < count * size) || ((char *) __CPROVER_return_value)[vg_k2] == 0)
+;
+void spifmem_free(const char *var, const char *filename, unsigned long line, void *ptr)
+__CPROVER_requires(MEM_LEVEL_REQ && vg_n2 <= (size_t) VCAP && (ptr == NULL || __CPROVER_is_fresh(ptr, vg_n2)))
+__CPROVER_assigns()
+__CPROVER_frees(ptr)
+__CPROVER_ensures(ptr == NULL || __CPROVER_was_freed(ptr))
+;
+void *spifmem_realloc(const char *var, const char *filename, unsigned long line, void *ptr, size_t size)
+__CPROVER_requires(MEM_LEVEL_REQ && size <= (size_t) VCAP && vg_n2 <= (size_t) VCAP && (ptr == NULL || __CPROVER_is_fresh(ptr, vg_n2)))
+__CPROVER_assigns()
+__CPROVER_frees(ptr)
+/* realloc(NULL) allocates, realloc(p, 0) frees, otherwise a block of the new size and the old one released */
+__CPROVER_ensures(ptr != NULL || __CPROVER_is_fresh(__CPROVER_return_value, size))
+__CPROVER_ensures(!(ptr != NULL && size == 0) || (__CPROVER_return_value == NULL && __CPROVER_was_freed(ptr)))
+__CPROVER_ensures(!(ptr != NULL && size != 0) || (__CPROVER_is_fresh(__CPROVER_return_value, size) && __CPROVER_was_freed(ptr)))
+;
+char *spifmem_strdup(const char *var, const char *filename, unsigned long line, const char *str)
+__CPROVER_requires(MEM_LEVEL_REQ && VCSTR_FRESH(str, vg_n2))
+__CPROVER_assigns()
+__CPROVER_ensures(__CPROVER_rw_ok(__CPROVER_return_value, 1))
+;
+#endif /* U_LEVEL_OFF */
+
+#ifdef U_LEVEL_ON
+/* malloc / calloc: fresh block, recorded as the last record with (address, requested size, file, line) */
+void *spifmem_malloc(const char *filename, unsigned long line, size_t size)
+__CPROVER_requires(MEM_LEVEL_REQ && size <= (size_t) VCAP)
+__CPROVER_requires(MEMREC_PRE(MEM_TAB) && malloc_rec.cnt < MEMREC_CAP)
+__CPROVER_requires(MEM_FNAME_PRE(filename) && line <= 0xffffffffUL)
+MEM_R(P_MALLOC, 2, MEMREC_LOGICAL(MEM_TAB))
+MEM_R(P_MALLOC, 3, MEMREC_NODUP_AT(MEM_TAB, vg_r, vg_r2) && MEM_LIVE_PRE_AT(vg_r) && (vg_r2 == vg_r || MEM_LIVE_PRE_AT(vg_r2)))
+__CPROVER_assigns(malloc_rec.cnt, malloc_rec.ptrs, vg_exit)
+__CPROVER_assigns(malloc_rec.ptrs != NULL: __CPROVER_object_whole(malloc_rec.ptrs))
+__CPROVER_frees(malloc_rec.ptrs)
+__CPROVER_ensures(__CPROVER_is_fresh(__CPROVER_return_value, size))
+MEM_E(P_MALLOC, 1, MEMREC_POST(MEM_TAB) && malloc_rec.cnt == __CPROVER_old(malloc_rec.cnt) + 1)
+MEM_E(P_MALLOC, 2, !(vg_r < __CPROVER_old(malloc_rec.cnt)) || MEMREC_REC_EQ(malloc_rec.ptrs[vg_r], vg_o_r))
+MEM_E(P_MALLOC, 2, vg_r != __CPROVER_old(malloc_rec.cnt) ||
+            (malloc_rec.ptrs[vg_r].ptr == __CPROVER_return_value && malloc_rec.ptrs[vg_r].size == size &&
+             malloc_rec.ptrs[vg_r].line == (spif_uint32_t) line && MEMREC_FILE_IS(MEM_TAB, vg_r, filename)))
+MEM_E(P_MALLOC, 3, MEMREC_NODUP_AT(MEM_TAB, vg_r, vg_r2))
+;
+void *spifmem_calloc(const char *filename, unsigned long line, size_t count, size_t size)
+__CPROVER_requires(MEM_LEVEL_REQ && count <= 0xffffUL && size <= 0xffffUL)
+__CPROVER_requires(MEMREC_PRE(MEM_TAB) && malloc_rec.cnt < MEMREC_CAP)
+__CPROVER_requires(MEM_FNAME_PRE(filename) && line <= 0xffffffffUL)
+MEM_R(P_CALLOC, 2, MEMREC_LOGICAL(MEM_TAB))
+MEM_R(P_CALLOC, 3, MEMREC_NODUP_AT(MEM_TAB, vg_r, vg_r2) && MEM_LIVE_PRE_AT(vg_r) && (vg_r2 == vg_r || MEM_LIVE_PRE_AT(vg_r2)))
+__CPROVER_assigns(malloc_rec.cnt, malloc_rec.ptrs, vg_exit)
+__CPROVER_assigns(malloc_rec.ptrs != NULL: __CPROVER_object_whole(malloc_rec.ptrs))
+__CPROVER_frees(malloc_rec.ptrs)
+__CPROVER_ensures(__CPROVER_is_fresh(__CPROVER_return_value, count * size))
+__CPROVER_ensures(!(vg_k2 < count * size) || ((char *) __CPROVER_return_value)[vg_k2] == 0)
+MEM_E(P_CALLOC, 1, MEMREC_POST(MEM_TAB) && malloc_rec.cnt == __CPROVER_old(malloc_rec.cnt) + 1)
+MEM_E(P_CALLOC, 2, !(vg_r < __CPROVER_old(malloc_rec.cnt)) || MEMREC_REC_EQ(malloc_rec.ptrs[vg_r], vg_o_r))
+MEM_E(P_CALLOC, 2, vg_r != __CPROVER_old(malloc_rec.cnt) ||
+            (malloc_rec.ptrs[vg_r].ptr == __CPROVER_return_value && malloc_rec.ptrs[vg_r].size == count * size &&
+             malloc_rec.ptrs[vg_r].line == (spif_uint32_t) line && MEMREC_FILE_IS(MEM_TAB, vg_r, filename)))
+MEM_E(P_CALLOC, 3, MEMREC_NODUP_AT(MEM_TAB, vg_r, vg_r2))
+;
+/* free: block released; its record removed (others keep their order); NULL or a pointer that is not
+ * recorded leaves the table unchanged */
+void spifmem_free(const char *var, const char *filename, unsigned long line, void *ptr)
+__CPROVER_requires(MEM_LEVEL_REQ && vg_n2 <= (size_t) VCAP && (ptr == NULL || __CPROVER_is_fresh(ptr, vg_n2)))
+__CPROVER_requires(MEMREC_PRE(MEM_TAB))
+MEM_R(P_FREE, 2, MEMREC_LOGICAL(MEM_TAB))
+MEM_R(P_FREE, 3, MEMREC_NODUP_AT(MEM_TAB, vg_r, vg_r2) && MEMREC_NODUP_AT(MEM_TAB, vg_r + 1, vg_r2) &&
+              MEMREC_NODUP_AT(MEM_TAB, vg_r, vg_r2 + 1) && MEMREC_NODUP_AT(MEM_TAB, vg_r + 1, vg_r2 + 1))
+__CPROVER_assigns(malloc_rec.cnt, malloc_rec.ptrs, vg_fidx)
+__CPROVER_assigns(malloc_rec.ptrs != NULL: __CPROVER_object_whole(malloc_rec.ptrs))
+__CPROVER_frees(malloc_rec.ptrs, ptr)
+__CPROVER_ensures(ptr == NULL || __CPROVER_was_freed(ptr))
+MEM_E(P_FREE, 1, MEMREC_POST(MEM_TAB))
+MEM_E(P_FREE, 1, (malloc_rec.cnt == __CPROVER_old(malloc_rec.cnt) && malloc_rec.ptrs == __CPROVER_old(malloc_rec.ptrs)) ||
+              (ptr != NULL && malloc_rec.cnt + 1 == __CPROVER_old(malloc_rec.cnt) && vg_fidx <= malloc_rec.cnt))
+MEM_E(P_FREE, 2, 
+    (malloc_rec.cnt == __CPROVER_old(malloc_rec.cnt) &&
+     (ptr == NULL || !(vg_r < malloc_rec.cnt) || vg_o_r.ptr != ptr) &&
+     (!(vg_r < malloc_rec.cnt) || MEMREC_REC_EQ(malloc_rec.ptrs[vg_r], vg_o_r)))
+    ||
+    (malloc_rec.cnt + 1 == __CPROVER_old(malloc_rec.cnt) &&
+     (vg_fidx != vg_r2 || vg_o_r2.ptr == ptr) &&
+     (!(vg_r < malloc_rec.cnt) ||
+      (vg_r < vg_fidx ? MEMREC_REC_EQ(malloc_rec.ptrs[vg_r], vg_o_r) : MEMREC_REC_EQ(malloc_rec.ptrs[vg_r], vg_o_r1)))))
+MEM_E(P_FREE, 3, MEMREC_NODUP_AT(MEM_TAB, vg_r, vg_r2))
+MEM_E(P_FREE, 3, malloc_rec.cnt == __CPROVER_old(malloc_rec.cnt) || vg_fidx != vg_r2 || MEMREC_ABSENT_AT(MEM_TAB, ptr, vg_r))
+;
+#endif /* U_LEVEL_ON */
+
 #endif /* U_NO_MEM_CONTRACTS */
 
 #endif
